@@ -276,6 +276,14 @@ def _own_returns(fn):
         stack.extend(ast.iter_child_nodes(n))
 
 
+def _atomic(e: ast.expr) -> bool:
+    if isinstance(e, (ast.Name, ast.Constant)):
+        return True
+    if isinstance(e, ast.Attribute):
+        return _atomic(e.value)
+    return False
+
+
 def _rewrite_block(body: List[ast.stmt], in_function: bool, stats: Dict[str, int], fn, loop_body: bool = False, fn_body: bool = False) -> List[ast.stmt]:
     out: List[ast.stmt] = []
     i = 0
@@ -311,6 +319,26 @@ def _rewrite_block(body: List[ast.stmt], in_function: bool, stats: Dict[str, int
                 ast.fix_missing_locations(n_)
             body[i:i + 1] = new_sts
             stats["dictsplat"] += 1
+            continue
+        if in_function and isinstance(st, ast.For) and not st.orelse and isinstance(st.target, ast.Name) and isinstance(st.iter, (ast.Tuple, ast.List)) and 0 < len(st.iter.elts) <= 10 \
+                and all(_atomic(e) for e in st.iter.elts) and not any(isinstance(n, (ast.Break, ast.Continue)) for x in st.body for n in ast.walk(x)) \
+                and not any(isinstance(n, ast.Name) and n.id == st.target.id and isinstance(n.ctx, (ast.Store, ast.Del)) for x in st.body for n in ast.walk(x)) \
+                and not any(isinstance(n, ast.Name) and n.id == st.target.id for x in body[i + 1:] for n in ast.walk(x)) and sum(1 for x in st.body for _ in ast.walk(x)) <= 60:
+            # `for x in (a, b, c): BODY`  ->  BODY[a]; BODY[b]; BODY[c]
+            import copy as _copy
+            var = st.target.id
+            unrolled = []
+            for e in st.iter.elts:
+                class _S(ast.NodeTransformer):
+                    def visit_Name(self, n, e=e):
+                        return ast.copy_location(_copy.deepcopy(e), n) if n.id == var and isinstance(n.ctx, ast.Load) else n
+                for x in st.body:
+                    y = _S().visit(_copy.deepcopy(x))
+                    ast.copy_location(y, st)
+                    ast.fix_missing_locations(y)
+                    unrolled.append(y)
+            body[i:i + 1] = unrolled
+            stats["unroll"] += 1
             continue
         if in_function and isinstance(st, ast.Expr) and isinstance(st.value, ast.YieldFrom) and isinstance(st.value.value, ast.GeneratorExp):
             # `yield from (e for t in it if c)`  ->  for t in it: if c: yield e
@@ -476,7 +504,7 @@ def _walk(node: ast.AST, in_function: bool, stats: Dict[str, int], fn) -> None:
 
 
 def normalise_tree(tree: ast.Module) -> Dict[str, int]:
-    stats = {"docstring": 0, "logging": 0, "else": 0, "tempreturn": 0, "annotation": 0, "ifexp": 0, "loop2comp": 0, "setupdate": 0, "flip": 0, "anyall": 0, "sink": 0, "guard": 0, "yieldfrom": 0, "sinkcall": 0, "dictsplat": 0, "mergeif": 0}
+    stats = {"docstring": 0, "logging": 0, "else": 0, "tempreturn": 0, "annotation": 0, "ifexp": 0, "loop2comp": 0, "setupdate": 0, "flip": 0, "anyall": 0, "sink": 0, "guard": 0, "yieldfrom": 0, "sinkcall": 0, "dictsplat": 0, "mergeif": 0, "unroll": 0}
     _walk(tree, False, stats, None)
     for n in ast.walk(tree):
         if isinstance(n, (ast.FunctionDef, ast.AsyncFunctionDef)):
